@@ -254,7 +254,8 @@ class C01(Prop):
             "inserted, admitted by a tick and filled by a later tick in the same case; distinct = distinct op sequences")
     level_text = ("Theorems C01.* (Lean 4): on both exchange models, after any history, every fill of a tick belongs to an id below "
                   "the next-id value at entry while everything admitted by the tick gets an id at or above it, each fill is priced and "
-                  "dated from the quotes passed to that tick only; server level: every fill is dated strictly after the clock at which "
+                  "dated from the quotes passed to that tick only; server level, both servers, any number of backtests, every interleaving of "
+                  "requests (generic in the exchange, ghost clock positions of id hand-out and of submission): every fill is dated strictly after the clock at which "
                   "its order was submitted while ticks are issued only as long as has_next allows. Tied to the code by the "
                   "exchange- and server-level correspondence runs; a monitor checks on the implementation's own traces that no order "
                   "fills on or before the tick that admits it and that fill dates and prices come from the current tick's quotes.")
